@@ -82,6 +82,39 @@ def discharge_local(F, fn, site, o, lin, facts_cache):
                 return "opsmap-monotone", "ops.len() >= 1 here: a push dominates the snapshot and OpsMap never shrinks (R36)"
             if len(syms) == 2 and len(pos) == 1 and len(neg) == 1 and k >= 0 and cfg.dominates(fn, neg[0][1], pos[0][1]):
                 return "opsmap-monotone", "len_b - len_a (+%d) with len_b taken after len_a: OpsMap only grows between them (R36)" % k
+        # x - c dominated by a comparison that establishes x >= c on the same variable
+        c_const = _const_int(fn, t["ops"][1])
+        if c_const is not None:
+            m_labels = o.at(t["ops"][0], b)
+            m_local = op_local(t["ops"][0])
+            def same_var(opnd, bb):
+                l2 = op_local(opnd)
+                if l2 is None:
+                    return False
+                if l2 == m_local:
+                    return True
+                # copies of the same user variable
+                roots_a = {x for x in util.copies_of(fn, l2, allow_not=False)}
+                names_a = {n for x in roots_a | {l2} for n in fn.var_names().get(x, ())}
+                srcs = set()
+                for bb2, j2, pl2, rv2, m2 in fn.assigns():
+                    if pl2["l"] in (m_local, l2) and rv2["k"] == "use":
+                        sp = op_place(rv2["ops"][0])
+                        if sp is not None and not sp["p"]:
+                            srcs.add((pl2["l"], sp["l"]))
+                a_src = {s for d_, s in srcs if d_ == m_local} | {m_local}
+                b_src = {s for d_, s in srcs if d_ == l2} | {l2}
+                return bool(a_src & b_src)
+            for sb, l, pol in _dominating_true_edges(fn, b):
+                for bb, j, pl, rv, m in fn.assigns():
+                    if pl["l"] != l or rv["k"] != "bin":
+                        continue
+                    k0, k1 = _const_int(fn, rv["ops"][0]), _const_int(fn, rv["ops"][1])
+                    if k1 is not None and same_var(rv["ops"][0], bb):
+                        if (rv["op"] == "Eq" and k1 == 0 and not pol and c_const == 1) or \
+                           (rv["op"] == "Ge" and pol and k1 >= c_const) or (rv["op"] == "Gt" and pol and k1 >= c_const - 1) or \
+                           (rv["op"] == "Lt" and not pol and k1 >= c_const) or (rv["op"] == "Ne" and k1 == 0 and pol and c_const == 1):
+                            return "guarded-sub", "dominated by a comparison establishing that the minuend is at least %d" % c_const
         return None
     if kind == "precond" and detail.endswith("Vec::drain"):
         # drain(0..): RangeFrom { start: 0 } never exceeds the length
